@@ -574,6 +574,21 @@ func (c *fnCtx) checkBackEdge(from, to *ssa.BasicBlock, st *State, ec string) {
 		return
 	}
 	invs := c.invariantsFor(li)
+	// bodyensures: facts about the iteration that just finished (header phis keep their header values)
+	if c.con != nil {
+		for _, be := range c.con.BodyEnsures[li.ordinal] {
+			bst := st.clone()
+			bst.cur = ec
+			env := c.newEnvAt(bst, from)
+			env.atEnd = true
+			env.hdr = to
+			t, err := env.evalBool(be.Text)
+			if err != nil {
+				c.abort("%s: bodyensures: %v", be.Pos, err)
+			}
+			c.oblige(bst, fmt.Sprintf("body:%d", li.ordinal), t, be.Text, be.Props, to.Instrs[0].Pos())
+		}
+	}
 	// automatic ghost-balance candidates
 	if len(li.autoGhost) > 0 {
 		var ks []string
@@ -647,8 +662,8 @@ func (c *fnCtx) finish() {
 	var posts []*Obligation
 	var postClauses []Clause
 	for _, e := range c.con.Ensures {
-		if c.con.IfaceKey != "" && strings.Contains(e.Text, "g_") {
-			continue // ghost bookkeeping is definitional for implementations
+		if (c.con.IfaceKey != "" && strings.Contains(e.Text, "g_")) || e.Label == "ghost" {
+			continue // ghost bookkeeping is definitional (the call itself is the event)
 		}
 		kind := "post"
 		if e.Label != "" {
@@ -776,6 +791,21 @@ func (c *fnCtx) collectDebug() {
 
 // lookupVar resolves a source-level variable name at block b (for invariants).
 func (c *fnCtx) lookupVar(st *State, name string, at *ssa.BasicBlock) (SymVal, bool) {
+	return c.lookupVarX(st, name, at, false, nil)
+}
+
+func (c *fnCtx) lookupVarX(st *State, name string, at *ssa.BasicBlock, atEnd bool, hdr *ssa.BasicBlock) (SymVal, bool) {
+	if hdr != nil {
+		for _, in := range hdr.Instrs {
+			phi, ok := in.(*ssa.Phi)
+			if !ok {
+				break
+			}
+			if phi.Comment == name {
+				return c.vals[phi], true
+			}
+		}
+	}
 	if at != nil {
 		// phi at this header
 		for _, in := range at.Instrs {
@@ -804,11 +834,10 @@ func (c *fnCtx) lookupVar(st *State, name string, at *ssa.BasicBlock) (SymVal, b
 		var best *dbgRef
 		for i := range c.dbg[name] {
 			d := &c.dbg[name][i]
-			if d.blk == at || !d.blk.Dominates(at) {
-				// definitions in the header itself come after the phis; allow non-phi same-block
-				if d.blk != at {
-					continue
-				}
+			if d.blk == at && !atEnd {
+				continue
+			}
+			if d.blk != at && !d.blk.Dominates(at) {
 				continue
 			}
 			if best == nil || best.blk.Dominates(d.blk) && (best.blk != d.blk || best.idx < d.idx) {
@@ -866,7 +895,7 @@ func (c *fnCtx) frameObligations(normal []retSite) {
 					done = true
 				}
 			}
-		} else if !strings.HasSuffix(m, "[*]") && !strings.HasPrefix(m, "$mem:") {
+		} else if !strings.HasSuffix(m, "[*]") && !strings.HasPrefix(m, "$mem:") && !strings.HasPrefix(m, "$ghost:") {
 			parts := strings.Split(m, ".")
 			if root, ok := c.paramVals[parts[0]]; ok && len(parts) >= 2 {
 				if locs, ok := env.selectorLocs(root, parts[1:]); ok {
